@@ -183,40 +183,43 @@ def flow_adjudicate(obs: list[dict], parallel: int = 6) -> tuple[dict, dict]:
     return core.adjudicate("ConstraintFlowTrace", "ConstraintFlowTrace.cfg", lines, batch=FLOW_BATCH, parallel=parallel, timeout=3000)
 
 
-def flow_judge(check: core.Check, cases: list[dict], label: str) -> dict[str, int]:
-    t0 = time.time()
-    obs = flow_observe(cases)
-    t1 = time.time()
-    verdicts, stats = flow_adjudicate(obs, parallel=6 if check.tier == "quick" else 12)
-    wall = check.cov.setdefault("flow", {}).setdefault("wall_s", {})
-    wall["observe"] = round(wall.get("observe", 0) + t1 - t0, 1)
-    wall["adjudicate"] = round(wall.get("adjudicate", 0) + time.time() - t1, 1)
-    check.add_trace_stats(stats)
-    check.evals(len(obs))
+def flow_judge(check: core.Check, cases: list[dict], label: str, wave: int = 30000) -> dict[str, int]:
+    """Observe and adjudicate in waves (observations carry the recorded runs: memory is bounded by one wave)."""
     counts: dict[str, int] = {}
-    by_tid = {o["tid"]: o for o in obs}
-    for tid, vals in verdicts.items():
-        o = by_tid[tid]
-        case = {"decl": o["decl"], "toks": o["toks"]}
-        payload = {"case": case, "observation": {k: o[k] for k in ("src", "inf", "runs")}, "source": label}
-        for v in sorted(set(vals)):
-            counts[v] = counts.get(v, 0) + 1
-            if v.startswith("oracle:"):
-                raise core.MachineryError(f"the execution model disagrees with real CPython ({v}) on\n{o['src']}\nruns={o['runs']}")
-            if v.startswith("viol:"):
-                check.violation(flow_case_key(case), v[5:], payload)
-            elif v.startswith("dev:"):
-                check.violation(v[4:], v[4:], payload)
-            elif v.startswith("drift:"):
-                check.drift({"verdict": v, **payload})
-            else:
-                raise core.MachineryError(f"unknown verdict {v}")
     fl = check.cov.setdefault("flow", {})
-    fl["functions_replayed"] = fl.get("functions_replayed", 0) + len(obs)
-    fl["recorded_reads_judged"] = fl.get("recorded_reads_judged", 0) + sum(len(o["inf"]) for o in obs)
-    fl["cpython_runs_compared"] = fl.get("cpython_runs_compared", 0) + sum(len(o["runs"]) for o in obs)
-    for o in obs[:: max(1, len(obs) // 2)][:2]:
-        check.sample({"source": label, "src": o["src"], "inf": o["inf"], "runs": len(o["runs"])}, limit=8)
+    wall = fl.setdefault("wall_s", {})
+    for w0 in range(0, len(cases), wave):
+        t0 = time.time()
+        obs = flow_observe(cases[w0 : w0 + wave], first_tid=w0 + 1)
+        t1 = time.time()
+        verdicts, stats = flow_adjudicate(obs, parallel=6 if check.tier == "quick" else 8)
+        wall["observe"] = round(wall.get("observe", 0) + t1 - t0, 1)
+        wall["adjudicate"] = round(wall.get("adjudicate", 0) + time.time() - t1, 1)
+        check.add_trace_stats(stats)
+        check.evals(len(obs))
+        by_tid = {o["tid"]: o for o in obs}
+        for tid, vals in verdicts.items():
+            o = by_tid[tid]
+            case = {"decl": o["decl"], "toks": o["toks"]}
+            payload = {"case": case, "observation": {k: o[k] for k in ("src", "inf", "runs")}, "source": label}
+            for v in sorted(set(vals)):
+                counts[v] = counts.get(v, 0) + 1
+                if v.startswith("oracle:"):
+                    raise core.MachineryError(f"the execution model disagrees with real CPython ({v}) on\n{o['src']}\nruns={o['runs']}")
+                if v.startswith("viol:"):
+                    check.violation(flow_case_key(case), v[5:], payload)
+                elif v.startswith("dev:"):
+                    check.violation(v[4:], v[4:], payload)
+                elif v.startswith("drift:"):
+                    check.drift({"verdict": v, **payload})
+                else:
+                    raise core.MachineryError(f"unknown verdict {v}")
+        fl["functions_replayed"] = fl.get("functions_replayed", 0) + len(obs)
+        fl["recorded_reads_judged"] = fl.get("recorded_reads_judged", 0) + sum(len(o["inf"]) for o in obs)
+        fl["cpython_runs_compared"] = fl.get("cpython_runs_compared", 0) + sum(len(o["runs"]) for o in obs)
+        if w0 == 0:
+            for o in obs[:: max(1, len(obs) // 2)][:2]:
+                check.sample({"source": label, "src": o["src"], "inf": o["inf"], "runs": len(o["runs"])}, limit=8)
     return counts
 
 
@@ -304,6 +307,7 @@ def flow_finish(check: core.Check, started: dict) -> None:
         core.require_ok(res, f"ConstraintFlow {name}")
         check.add_tlc(f"flow:{name} (InvFlowEmit)", res)
         cases = [c for c in core.emitted_json(res) if "toks" in c]
+        res.stdout = ""
         consts = _flow_cfg_constants(f"ConstraintFlow.{name}.cfg")
         fl["slices"][name] = {
             "functions": len(cases), "states": res.distinct,
